@@ -35,6 +35,29 @@ def parseQ : Sx → Option (String × Json)
 
 def roundRobin (n : Nat) : List Nat := (List.range 13).flatMap fun _ => List.range n
 
+/-- n identical requests, one after the other (any order of identical requests is this order) -/
+def raceStep (n : Nat) (st : CertState) (req : Request) : CertState × List Sx :=
+  (List.range n).foldl (fun (acc : CertState × List Sx) _ =>
+    let (st', res) := certServe cvtF64 certConsts "" acc.1 "@unused" req
+    (st', acc.2 ++ [Sx.list (.atom "r" :: ofBool (!res.ok) :: res.out.map repSx)])) (st, [])
+
+def sortSx (l : List Sx) : List Sx :=
+  (l.map fun x => (render x, x)).mergeSort (fun a b => a.1 ≤ b.1) |>.map (·.2)
+
+/-- one round of a `(race n _)` case in the model: `Start`, then every raced step as n
+    sequential identical requests (a step is atomic, so the concurrent run is one of the
+    n! orders, and they are all this one) -/
+def raceRound (n : Nat) : Sx :=
+  let cid := "@cid0"
+  let st0 := (certServe cvtF64 certConsts "" CertState.empty cid canonStartReq).1
+  let steps : List Step := [.t01, .t02, .t03, .t04, .t05, .t06, .t07, .t08, .t09, .t10]
+  let (st1, outs) := steps.foldl (fun (acc : CertState × List Sx) k =>
+    let (st', rs) := raceStep n acc.1 (canonStepReq k cid)
+    (st', acc.2 ++ [Sx.list (.atom "step" :: .atom (toString (posOfStep k)) :: sortSx rs)])) (st0, [])
+  let st2 := (certServe cvtF64 certConsts "" st1 "@unused" (canonStepReq .t11 cid)).1
+  let (_, rs) := raceStep n st2 (canonStepReq .fin cid)
+  .list (.atom "round" :: outs ++ [Sx.list (.atom "step" :: .atom "12" :: sortSx rs)])
+
 def certLine (line : String) : String :=
   match parse line with
   | some (.list (.atom "cert" :: qs)) =>
@@ -55,6 +78,11 @@ def certLine (line : String) : String :=
           Sx.list (.atom "r" :: .atom "f" :: e.2.2.map repSx))
       render (.list (.atom "obs" :: clients))
     | none => "(model-case-error)"
+  | some (.list [.atom "race", n, rounds]) =>
+    match asNat n, asNat rounds with
+    | some n, some rounds =>
+      render (.list [.atom "obs", .list [.atom "x", .atom (toString rounds), raceRound n]])
+    | _, _ => "(model-case-error)"
   | some (.list [.atom "realclient", n]) =>
     match asNat n with
     | some n => render (.list (.atom "obs" :: List.replicate n (.list [.atom "exit", .atom "0"])))
@@ -100,6 +128,22 @@ def certPred (prop : String) (caseLine obsLine : String) : String :=
       | none => "ok"
       | some r => "fail " ++ r
     | none => "fail unparsable-observation"
+  | some (.list [.atom "race", n, _]), some (.list (.atom "obs" :: xs)) =>
+    let rounds : Option (List (List (Nat × List (Bool × List Reply)))) := xs.mapM fun x => match x with
+      | Sx.list [Sx.atom "x", _, Sx.list (Sx.atom "round" :: steps)] =>
+        steps.mapM fun st => match st with
+          | Sx.list (Sx.atom "step" :: pos :: rs) => do
+            let pos ← asNat pos
+            let rs ← rs.mapM parseR
+            pure (pos, rs)
+          | _ => none
+      | _ => none
+    match rounds, asNat n with
+    | some rounds, some n =>
+      match firstSome (rounds.map (P_C19_race n)) with
+      | none => "ok"
+      | some r => "fail " ++ r
+    | _, _ => "fail unparsable-observation"
   | some (.list [.atom "realclient", n]), some (.list (.atom "obs" :: es)) =>
     if es.length == (asNat n).getD 0 && es.all (fun e => render e == "(exit 0)") then "ok"
     else "fail real-canonical-client-failed"
